@@ -71,6 +71,10 @@ func genC18(r *Rng, tier string) []Case {
 			shared("sxg_message", msg)
 		}
 		se := mkExchange(r, ver, exOpts{contentType: true, extraResp: randExtra(r, 2), payloadLen: 30, uri: "https://example.com/index.html"})
+		// case-variant map keys (caller-built header map): must be refused every time, never merged in map order
+		cv := L(ex.L[0], ex.L[1], ex.L[2], ex.L[3], ex.L[4], L(append(append([]Sx{}, ex.L[5].L...), L(B([]byte("X-Variant")), B([]byte("alpha"))), L(B([]byte("x-variant")), B([]byte("beta")), Sym("raw")))...), ex.L[6], ex.L[7])
+		conc("sxg_headers", []Sx{cv})
+		shared("sxg_headers", []Sx{cv})
 		cs = append(cs, Case{"conc_signer", []Sx{exchangeInSx(se), Zi(int64(i)), Zi(int64(n))}})
 		// bundles (b1 with variants / b2), permuted header order per exchange
 		b := randBundle(r, bverList()[i%2], 2+r.Intn(4))
